@@ -40,6 +40,136 @@ pub unsafe extern "C" fn getenv(name: *const libc::c_char) -> *mut libc::c_char 
     f(name)
 }
 
+// ------------------------------------------------------------------------------------------ open interposition
+
+/// number of files opened through a RELATIVE path (such a lookup depends on the process-wide current directory)
+pub static RELATIVE_OPENS: AtomicU64 = AtomicU64::new(0);
+pub static ALL_OPENS: AtomicU64 = AtomicU64::new(0);
+
+static REAL_OPEN64: AtomicU64 = AtomicU64::new(0);
+static REAL_OPEN: AtomicU64 = AtomicU64::new(0);
+static REAL_OPENAT: AtomicU64 = AtomicU64::new(0);
+static REAL_OPENAT64: AtomicU64 = AtomicU64::new(0);
+
+/// the harness' own interposition state lives in the executable's .data/.bss: resolved up front and excluded from the
+/// global-write monitor (judged separately)
+pub fn monitor_excludes() -> Vec<(usize, usize)> {
+    unsafe {
+        real(b"open64\0", &REAL_OPEN64);
+        real(b"open\0", &REAL_OPEN);
+        real(b"openat\0", &REAL_OPENAT);
+        real(b"openat64\0", &REAL_OPENAT64);
+    }
+    let a = |x: &AtomicU64| (x as *const AtomicU64 as usize, 8usize);
+    vec![a(&GETENV_CALLS), a(&RELATIVE_OPENS), a(&ALL_OPENS), a(&REAL_OPEN64), a(&REAL_OPEN), a(&REAL_OPENAT), a(&REAL_OPENAT64)]
+}
+
+unsafe fn note_open(path: *const libc::c_char) {
+    ALL_OPENS.fetch_add(1, Ordering::Relaxed);
+    if !path.is_null() && *path != b'/' as libc::c_char {
+        RELATIVE_OPENS.fetch_add(1, Ordering::Relaxed);
+    }
+}
+
+unsafe fn real(name: &[u8], slot: &AtomicU64) -> usize {
+    let mut p = slot.load(Ordering::Relaxed);
+    if p == 0 {
+        p = libc::dlsym(libc::RTLD_NEXT, name.as_ptr() as *const libc::c_char) as u64;
+        slot.store(p, Ordering::Relaxed);
+    }
+    p as usize
+}
+
+#[no_mangle]
+pub unsafe extern "C" fn open64(path: *const libc::c_char, flags: libc::c_int, mode: libc::mode_t) -> libc::c_int {
+    note_open(path);
+    type F = unsafe extern "C" fn(*const libc::c_char, libc::c_int, libc::mode_t) -> libc::c_int;
+    let p = real(b"open64\0", &REAL_OPEN64);
+    if p == 0 {
+        return -1;
+    }
+    let f: F = std::mem::transmute(p);
+    f(path, flags, mode)
+}
+
+#[no_mangle]
+pub unsafe extern "C" fn open(path: *const libc::c_char, flags: libc::c_int, mode: libc::mode_t) -> libc::c_int {
+    note_open(path);
+    type F = unsafe extern "C" fn(*const libc::c_char, libc::c_int, libc::mode_t) -> libc::c_int;
+    let p = real(b"open\0", &REAL_OPEN);
+    if p == 0 {
+        return -1;
+    }
+    let f: F = std::mem::transmute(p);
+    f(path, flags, mode)
+}
+
+#[no_mangle]
+pub unsafe extern "C" fn openat(dirfd: libc::c_int, path: *const libc::c_char, flags: libc::c_int, mode: libc::mode_t) -> libc::c_int {
+    if dirfd == libc::AT_FDCWD {
+        note_open(path);
+    }
+    type F = unsafe extern "C" fn(libc::c_int, *const libc::c_char, libc::c_int, libc::mode_t) -> libc::c_int;
+    let p = real(b"openat\0", &REAL_OPENAT);
+    if p == 0 {
+        return -1;
+    }
+    let f: F = std::mem::transmute(p);
+    f(dirfd, path, flags, mode)
+}
+
+#[no_mangle]
+pub unsafe extern "C" fn openat64(dirfd: libc::c_int, path: *const libc::c_char, flags: libc::c_int, mode: libc::mode_t) -> libc::c_int {
+    if dirfd == libc::AT_FDCWD {
+        note_open(path);
+    }
+    type F = unsafe extern "C" fn(libc::c_int, *const libc::c_char, libc::c_int, libc::mode_t) -> libc::c_int;
+    let p = real(b"openat64\0", &REAL_OPENAT64);
+    if p == 0 {
+        return -1;
+    }
+    let f: F = std::mem::transmute(p);
+    f(dirfd, path, flags, mode)
+}
+
+// ------------------------------------------------------------------------------------------ ambient process state
+
+/// directory of decoy files: one well-formed TZif file (+11:00, "DCY") for every name or TZ string an operation resolves, so
+/// that a lookup relative to the current directory changes the result
+pub static DECOYS: std::sync::OnceLock<std::path::PathBuf> = std::sync::OnceLock::new();
+
+const DECOY_NAMES: [&str; 12] = ["TST-5", "EST5EDT,M3.2.0,M11.1.0", "EST5EDT,0/0,J365/25", "Zone", "Other", "Third", "Home", "Nope", "localtime", "UTC0", "Nope2", "primary"];
+
+pub fn create_decoys() -> std::path::PathBuf {
+    let dir = match std::env::var("TZRS_VERIF_DECOYS") {
+        Ok(d) => std::path::PathBuf::from(d),
+        Err(_) => std::env::temp_dir().join(format!("tzrs-verif-hist-{}", std::process::id())),
+    };
+    let _ = std::fs::create_dir_all(dir.join("Nope3"));
+    let bytes = footer_file(b'2', b"<+11>-11");
+    for n in DECOY_NAMES {
+        let _ = std::fs::write(dir.join(n), &bytes);
+    }
+    let _ = std::fs::write(dir.join("Nope3").join("Nothing"), &bytes);
+    let _ = DECOYS.set(dir.clone());
+    dir
+}
+
+pub fn remove_decoys() {
+    if std::env::var("TZRS_VERIF_DECOYS").is_err() {
+        if let Some(d) = DECOYS.get() {
+            let _ = std::env::set_current_dir("/");
+            let _ = std::fs::remove_dir_all(d);
+        }
+    }
+}
+
+fn set_errno(v: libc::c_int) {
+    unsafe {
+        *libc::__errno_location() = v;
+    }
+}
+
 // ------------------------------------------------------------------------------------------ memory monitor
 
 pub struct Regions {
@@ -258,6 +388,9 @@ pub struct Op {
     pub run: fn(&Shared) -> String,
     /// result depends on the wall clock: only Ok-ness is compared
     pub clock: bool,
+    /// not an operation of the subject: changes ambient process state (current directory, errno, environment) that the
+    /// subject must not depend on; not monitored itself
+    pub perturb: bool,
 }
 
 fn d<T: std::fmt::Debug>(v: T) -> String {
@@ -270,7 +403,7 @@ const T_EDGE: i64 = 1_603_587_600; // 2020-10-25T01:00:00Z (EU DST end)
 
 pub fn ops() -> Vec<Op> {
     fn op(name: &'static str, run: fn(&Shared) -> String) -> Op {
-        Op { name, run, clock: false }
+        Op { name, run, clock: false, perturb: false }
     }
     vec![
         // same instant in three different shared zones (a cache keyed by instant only would collide)
@@ -317,9 +450,23 @@ pub fn ops() -> Vec<Op> {
         op("display", |s| format!("{} {} {:?}", s.dt, s.utc_dt, DateTime::from_timespec(T_EDGE, 9, s.paris.as_ref()).map(|x| x.to_string()))),
         op("from_timespec ny", |s| d(DateTime::from_timespec(T_SUMMER, 0, s.ny.as_ref()))),
         // ambient clock: only success is compared
-        Op { name: "now utc", run: |_| d(UtcDateTime::now().is_ok()), clock: true },
-        Op { name: "now zone", run: |s| d(DateTime::now(s.paris.as_ref()).is_ok()), clock: true },
-        Op { name: "current type", run: |s| d(s.ny.find_current_local_time_type().is_ok()), clock: true },
+        Op { name: "now utc", run: |_| d(UtcDateTime::now().is_ok()), clock: true, perturb: false },
+        Op { name: "now zone", run: |s| d(DateTime::now(s.paris.as_ref()).is_ok()), clock: true, perturb: false },
+        Op { name: "current type", run: |s| d(s.ny.find_current_local_time_type().is_ok()), clock: true, perturb: false },
+        // the default reader (real file system): a TZ string that names no file, a rule, a name that does not exist
+        op("default reader TST-5", |_| d(TimeZone::from_posix_tz("TST-5").map_err(|e| e.to_string()))),
+        op("default reader rule", |_| d(TimeZone::from_posix_tz("EST5EDT,M3.2.0,M11.1.0").map_err(|e| e.to_string()))),
+        op("default reader missing", |_| d(TimeZone::from_posix_tz(":Nope3/Nothing").map_err(|e| e.to_string()))),
+        op("failing reader rule", |_| d(TimeZoneSettings::new(&["/zoneinfo"], |_| Err("no file system".into())).parse_posix_tz("TST-5").map_err(|e| e.to_string()))),
+        // ambient process state the subject must not depend on
+        Op { name: "AMBIENT chdir decoys", run: |_| { if let Some(p) = DECOYS.get() { let _ = std::env::set_current_dir(p); } String::new() }, clock: false, perturb: true },
+        Op { name: "AMBIENT chdir /", run: |_| { let _ = std::env::set_current_dir("/"); String::new() }, clock: false, perturb: true },
+        Op { name: "AMBIENT errno=EPERM", run: |_| { set_errno(libc::EPERM); String::new() }, clock: false, perturb: true },
+        Op { name: "AMBIENT errno=EACCES", run: |_| { set_errno(libc::EACCES); String::new() }, clock: false, perturb: true },
+        Op { name: "AMBIENT errno=EINTR", run: |_| { set_errno(libc::EINTR); String::new() }, clock: false, perturb: true },
+        Op { name: "AMBIENT errno=0", run: |_| { set_errno(0); String::new() }, clock: false, perturb: true },
+        Op { name: "AMBIENT setenv TZ/TZDIR", run: |_| { std::env::set_var("TZ", "Asia/Tokyo"); std::env::set_var("TZDIR", DECOYS.get().map(|p| p.display().to_string()).unwrap_or_default()); String::new() }, clock: false, perturb: true },
+        Op { name: "AMBIENT unsetenv TZ/TZDIR", run: |_| { std::env::remove_var("TZ"); std::env::remove_var("TZDIR"); String::new() }, clock: false, perturb: true },
     ]
 }
 
@@ -358,6 +505,12 @@ fn auto_traits() {
 /// child mode: run one op alone in this fresh process, print its digest
 pub fn run_alone(args: &Args) -> i32 {
     let idx: usize = args.extra.get("op").and_then(|s| s.parse().ok()).unwrap_or(0);
+    if let Ok(d) = std::env::var("TZRS_VERIF_DECOYS") {
+        let _ = DECOYS.set(std::path::PathBuf::from(d));
+    }
+    if let Some(e) = args.extra.get("errno").and_then(|s| s.parse::<i32>().ok()) {
+        set_errno(e);
+    }
     let shared = Shared::build();
     let ops = ops();
     let out = (ops[idx].run)(&shared);
@@ -372,15 +525,31 @@ pub fn run(args: &Args) -> i32 {
     let ops = ops();
     let n = ops.len();
     // ---- run-alone digests under four environments
-    let envs: [(&str, Option<&str>, Option<&str>); 4] = [("unset", None, None), ("valid", Some("Europe/Paris"), Some("/usr/share/zoneinfo")), ("other", Some("America/New_York"), Some("/verif/data/tzdb/fat")), ("garbage", Some(":\u{1}//../nonsense"), Some("/nonexistent"))];
+    let decoys = create_decoys();
+    let decoys_s = decoys.display().to_string();
+    // (name, TZ, TZDIR, run in the decoy directory, initial errno)
+    let envs: [(&str, Option<&str>, Option<&str>, bool, i32); 6] = [
+        ("unset", None, None, false, 0),
+        ("valid", Some("Europe/Paris"), Some("/usr/share/zoneinfo"), false, 0),
+        ("other", Some("America/New_York"), Some("/verif/data/tzdb/fat"), false, 0),
+        ("garbage", Some(":\u{1}//../nonsense"), Some("/nonexistent"), false, 0),
+        ("cwd=decoys", None, Some(&decoys_s), true, 0),
+        ("errno=EPERM", None, None, false, libc::EPERM),
+    ];
     let mut alone: Vec<u64> = vec![0; n];
     let mut spawned = 0u64;
     for (i, op) in ops.iter().enumerate() {
+        if op.perturb {
+            alone[i] = digest_of("");
+            continue;
+        }
         let mut seen: BTreeMap<u64, &str> = BTreeMap::new();
-        for (ename, tzv, tzdir) in envs.iter() {
+        for (ename, tzv, tzdir, in_decoys, errno) in envs.iter() {
             let mut cmd = std::process::Command::new(&exe);
-            cmd.args(["hist-alone", "--op", &i.to_string()]);
+            cmd.args(["hist-alone", "--op", &i.to_string(), "--errno", &errno.to_string()]);
             cmd.env_remove("TZ").env_remove("TZDIR");
+            cmd.env("TZRS_VERIF_DECOYS", &decoys_s);
+            cmd.current_dir(if *in_decoys { decoys_s.as_str() } else { "/" });
             if let Some(v) = tzv {
                 cmd.env("TZ", v);
             }
@@ -403,7 +572,7 @@ pub fn run(args: &Args) -> i32 {
             }
         }
         if seen.len() != 1 {
-            rec.violation("environments", json!({"kind":"env","op":op.name}), json!("same result under every TZ / TZDIR environment"), json!(format!("{} distinct results: {:?}", seen.len(), seen.values().collect::<Vec<_>>())));
+            rec.violation("environments", json!({"kind":"env","op":op.name}), json!("same result under every TZ / TZDIR / current directory / errno environment"), json!(format!("{} distinct results: {:?}", seen.len(), seen.values().collect::<Vec<_>>())));
         }
     }
     rec.sub("run_alone", json!({"ops": n, "child_processes": spawned, "environments": envs.iter().map(|e| e.0).collect::<Vec<_>>()}));
@@ -411,9 +580,8 @@ pub fn run(args: &Args) -> i32 {
     // ---- history exploration with monitors
     let shared = Shared::build();
     let regions = Regions::discover();
-    let getenv_addr = &GETENV_CALLS as *const AtomicU64 as usize;
-    // the harness' own counter of interposed getenv calls lives in .data: excluded from the diff, judged separately
-    let exclude = [(getenv_addr, 8usize)];
+    // the harness' own counters of interposed calls live in .data: excluded from the diff, judged separately
+    let exclude = monitor_excludes();
     let mut snap: Vec<u8> = Vec::with_capacity(regions.total());
     let max_len = if thorough { 4 } else { 3 };
     // thorough: length-4 histories over a 16-op collision subset (65536) on top of all length<=3 histories
@@ -426,12 +594,18 @@ pub fn run(args: &Args) -> i32 {
         for (pos, &oi) in h.iter().enumerate() {
             steps += 1;
             let op = &ops[oi];
+            if op.perturb {
+                (op.run)(&shared);
+                continue;
+            }
             let env_before = GETENV_CALLS.load(Ordering::Relaxed);
+            let rel_before = RELATIVE_OPENS.load(Ordering::Relaxed);
             regions.snapshot(&mut snap);
             let out = std::panic::catch_unwind(std::panic::AssertUnwindSafe(|| (op.run)(&shared)));
             let changed = regions.diff(&snap, &exclude);
             let env_after = GETENV_CALLS.load(Ordering::Relaxed);
-            let case = || json!({"kind":"history","ops":h.iter().map(|&k| ops[k].name).collect::<Vec<_>>(),"indices":h,"failing_position":pos});
+            let rel_after = RELATIVE_OPENS.load(Ordering::Relaxed);
+            let case = || json!({"kind":"history","ops":h.iter().map(|&k| ops[k].name).collect::<Vec<_>>(),"indices":h,"failing_position":pos,"run_alone_digests":h.iter().map(|&k| format!("{:016x}", alone[k])).collect::<Vec<_>>()});
             let out = match out {
                 Ok(o) => o,
                 Err(_) => {
@@ -450,10 +624,19 @@ pub fn run(args: &Args) -> i32 {
             if env_after != env_before {
                 rec.violation("environment_read_monitor", case(), json!("no getenv call during an operation"), json!({"getenv_calls": env_after - env_before}));
             }
+            if rel_after != rel_before {
+                rec.violation("relative_open_monitor", case(), json!("no file is opened through a path relative to the current directory"), json!({"relative_opens": rel_after - rel_before}));
+            }
             if shared.raw_digest() != base_raw {
                 rec.violation("bitwise_immutability", case(), json!("raw bytes of every shared value unchanged by &self operations"), json!("changed"));
             }
         }
+    };
+    let reset_ambient = || {
+        let _ = std::env::set_current_dir("/");
+        set_errno(0);
+        std::env::remove_var("TZ");
+        std::env::remove_var("TZDIR");
     };
     let mut h: Vec<usize> = vec![];
     // depth-first over the history tree, simplest first
@@ -467,6 +650,11 @@ pub fn run(args: &Args) -> i32 {
                 c /= n;
             }
             h.reverse();
+            // a history that ends with an ambient change observes nothing
+            if ops[*h.last().unwrap()].perturb {
+                continue;
+            }
+            reset_ambient();
             run_history(&h, &rec);
             if rec.saturated() {
                 break;
@@ -474,7 +662,12 @@ pub fn run(args: &Args) -> i32 {
         }
     }
     if max_len >= 4 {
-        let subset: Vec<usize> = vec![0, 1, 9, 10, 11, 12, 15, 16, 17, 19, 20, 21, 22, 23, 27, 28];
+        let mut subset: Vec<usize> = vec![0, 1, 9, 10, 15, 16, 17, 20, 21, 27, 28];
+        for (k, o) in ops.iter().enumerate() {
+            if o.perturb || o.name.starts_with("default reader") || o.name.starts_with("failing reader") {
+                subset.push(k);
+            }
+        }
         let m = subset.len();
         for code in 0..m.pow(4) {
             h.clear();
@@ -483,6 +676,10 @@ pub fn run(args: &Args) -> i32 {
                 h.push(subset[c % m]);
                 c /= m;
             }
+            if ops[*h.last().unwrap()].perturb {
+                continue;
+            }
+            reset_ambient();
             run_history(&h, &rec);
             if rec.saturated() {
                 break;
@@ -493,13 +690,15 @@ pub fn run(args: &Args) -> i32 {
     // monitor self-test: the monitors must see an injected static write, TLS write and getenv call (otherwise they are blind)
     let selftest = monitor_selftest(&regions, &exclude);
     rec.sub("monitor_selftest", selftest.clone());
-    if selftest["static_write_seen"] != true || selftest["tls_write_seen"] != true || selftest["getenv_seen"] != true {
+    reset_ambient();
+    remove_decoys();
+    if selftest["static_write_seen"] != true || selftest["tls_write_seen"] != true || selftest["getenv_seen"] != true || selftest["relative_open_seen"] != true || selftest["absolute_open_not_flagged"] != true {
         eprintln!("MACHINERY: monitor self-test failed: {selftest}");
         return 4;
     }
     rec.add(steps, histories - n as u64);
     rec.add_model(histories, steps, steps);
-    rec.set_rule("explored object = tree of operation histories (no deduplication possible: the subject exposes no state): every sequence of <= 3 operations over a 36-op collision alphabet (thorough: + all length-4 histories over a 16-op subset); after every operation: result digest == run-alone digest (fresh process, 4 TZ/TZDIR environments), no changed byte in .data/.bss/TLS of the executable, no getenv call, raw bytes of shared values unchanged. non-trivial = histories of length >= 2");
+    rec.set_rule("explored object = tree of operation histories (no deduplication possible: the subject exposes no state): every sequence of <= 3 steps over a 48-letter alphabet = 40 operations chosen to collide + 8 changes of ambient process state (current directory with decoy files, errno, TZ/TZDIR set at run time) (thorough: + all length-4 histories over a 23-letter subset); after every operation: result digest == run-alone digest (fresh process, 6 environments: TZ/TZDIR, decoy current directory, initial errno), no changed byte in .data/.bss/TLS of the executable, no getenv call, no file opened through a relative path, raw bytes of shared values unchanged. non-trivial = histories of length >= 2");
     rec.set_exhaustive(true);
     rec.outcome(&format!("{} distinct results", distinct_results.len()));
     rec.outcome("run-alone");
@@ -527,7 +726,14 @@ fn monitor_selftest(regions: &Regions, exclude: &[(usize, usize)]) -> Value {
     let before = GETENV_CALLS.load(Ordering::Relaxed);
     let _ = std::env::var("TZRS_VERIF_SELFTEST");
     let s3 = GETENV_CALLS.load(Ordering::Relaxed) > before;
-    json!({"static_write_seen": s1, "tls_write_seen": s2, "getenv_seen": s3})
+    let r0 = RELATIVE_OPENS.load(Ordering::Relaxed);
+    let _ = std::fs::read("tzrs-verif-selftest-relative-path-that-does-not-exist");
+    let s4 = RELATIVE_OPENS.load(Ordering::Relaxed) > r0;
+    let r1 = RELATIVE_OPENS.load(Ordering::Relaxed);
+    let a1 = ALL_OPENS.load(Ordering::Relaxed);
+    let _ = std::fs::read("/tzrs-verif-selftest-absolute-path-that-does-not-exist");
+    let s5 = RELATIVE_OPENS.load(Ordering::Relaxed) == r1 && ALL_OPENS.load(Ordering::Relaxed) > a1;
+    json!({"static_write_seen": s1, "tls_write_seen": s2, "getenv_seen": s3, "relative_open_seen": s4, "absolute_open_not_flagged": s5})
 }
 
 pub fn replay(case: &Value, args: &Args) -> i32 {
@@ -541,7 +747,7 @@ pub fn replay(case: &Value, args: &Args) -> i32 {
     let ops = ops();
     let shared = Shared::build();
     let regions = Regions::discover();
-    let exclude = [(&GETENV_CALLS as *const AtomicU64 as usize, 8usize)];
+    let exclude = monitor_excludes();
     let mut outs = vec![];
     let mut snap = vec![];
     let mut mon = false;
